@@ -247,6 +247,14 @@ func genC10(r *Run) {
 		evals++
 		checkRouting(r, entry, xids, ths, evs, outs, Case{entry, args}.Line())
 	}
+	// a held matcher: the per-transaction buffer fills up, nothing solicited may be lost or reordered
+	for n := 2; n <= 7; n++ { // at most 7 datagrams can be in flight while the matcher is held
+		for acceptFrom := 0; acceptFrom <= n; acceptFrom++ { // n: nothing is acceptable
+			checkHeldMatcher(r, false, n, acceptFrom)
+			checkHeldMatcher(r, true, n, acceptFrom)
+			evals += 2
+		}
+	}
 	// micro-step schedules forced through the verif hooks
 	for _, f := range hookSchedules {
 		for k := 0; k < r.N(3, 50); k++ {
@@ -317,5 +325,115 @@ func checkRouting(r *Run, entry int, xids, ths []byte, evs [][]byte, outs []call
 				j, xids[j], ths[j], outs[j].status, outs[j].payload, want.status, want.payload))
 			return
 		}
+	}
+}
+
+// heldMatcherScenario: one call whose matcher is held on the first datagram while up to six more
+// datagrams with its id arrive (five fill the per-transaction buffer, one more waits in the receive loop);
+// then the matcher is released.  Returns the payloads the matcher saw, in order, and the call's outcome.
+func heldMatcherScenario(v6 bool, payloads []byte, acceptFrom int) (seen []byte, out callOutcome) {
+	synctest.Test(syncT, func(t *testing.T) {
+		conn := newLabConn()
+		gate := make(chan struct{})
+		first := true
+		var mu sync.Mutex
+		see := func(p byte) bool {
+			mu.Lock()
+			seen = append(seen, p)
+			hold := first
+			first = false
+			idx := len(seen) - 1
+			mu.Unlock()
+			if hold {
+				<-gate
+			}
+			return idx >= acceptFrom
+		}
+		done := make(chan struct{})
+		var closer func()
+		if v6 {
+			c, err := nclient6.NewWithConn(conn, labHW, nclient6.WithTimeout(time.Hour), nclient6.WithRetry(1))
+			if err != nil {
+				t.Fatal(err)
+			}
+			closer = func() { c.Close() }
+			go func() {
+				defer close(done)
+				req := &dhcpv6.Message{MessageType: dhcpv6.MessageTypeSolicit, TransactionID: dhcpv6.TransactionID{0, 0, 7}}
+				resp, err := c.SendAndRead(context.Background(), nclient6.AllDHCPRelayAgentsAndServers, req, func(m *dhcpv6.Message) bool { return see(payloadOfV6(m)) })
+				out = classify6(resp, err)
+			}()
+		} else {
+			c, err := nclient4.NewWithConn(conn, labHW, nclient4.WithTimeout(time.Hour), nclient4.WithRetry(1))
+			if err != nil {
+				t.Fatal(err)
+			}
+			closer = func() { c.Close() }
+			go func() {
+				defer close(done)
+				req, _ := dhcpv4.NewDiscovery(labHW, dhcpv4.WithTransactionID(dhcpv4.TransactionID{0, 0, 0, 7}))
+				resp, err := c.SendAndRead(context.Background(), &net.UDPAddr{IP: net.IPv4bcast, Port: 67}, req, func(p *dhcpv4.DHCPv4) bool { return see(payloadOfV4(p)) })
+				out = classify4(resp, err)
+			}()
+		}
+		synctest.Wait()
+		for _, p := range payloads {
+			var b []byte
+			if v6 {
+				m := &dhcpv6.Message{MessageType: dhcpv6.MessageTypeReply, TransactionID: dhcpv6.TransactionID{0, 0, 7}}
+				m.AddOption(&dhcpv6.OptionGeneric{OptionCode: 4000, OptionData: []byte{p}})
+				b = m.ToBytes()
+			} else {
+				m, _ := dhcpv4.New(dhcpv4.WithTransactionID(dhcpv4.TransactionID{0, 0, 0, 7}), dhcpv4.WithHwAddr(labHW),
+					dhcpv4.WithMessageType(dhcpv4.MessageTypeOffer), dhcpv4.WithGeneric(dhcpv4.GenericOptionCode(224), []byte{p}))
+				m.OpCode = dhcpv4.OpcodeBootReply
+				b = m.ToBytes()
+			}
+			select {
+			case conn.in <- b:
+			case <-conn.closed:
+			}
+			synctest.Wait()
+		}
+		close(gate)
+		synctest.Wait()
+		select {
+		case <-done:
+		default:
+			closer() // nothing acceptable: end the call
+		}
+		<-done
+		closer()
+		synctest.Wait()
+	})
+	return
+}
+
+func checkHeldMatcher(r *Run, v6 bool, n, acceptFrom int) {
+	payloads := make([]byte, n)
+	for i := range payloads {
+		payloads[i] = byte(10 + i)
+	}
+	seen, out := heldMatcherScenario(v6, payloads, acceptFrom)
+	what := fmt.Sprintf("v6=%v: matcher held on the first of %d datagrams with the call's id, acceptable from position %d", v6, n, acceptFrom)
+	wantSeen := n
+	if acceptFrom < n {
+		wantSeen = acceptFrom + 1
+	}
+	if len(seen) != wantSeen {
+		r.Fail("c10-solicited-datagram-lost", what, fmt.Sprintf("the matcher saw %v, want the first %d of %v in arrival order", seen, wantSeen, payloads))
+		return
+	}
+	for i := range seen {
+		if seen[i] != payloads[i] {
+			r.Fail("c10-arrival-order", what, fmt.Sprintf("the matcher saw %v, arrival order %v", seen, payloads))
+			return
+		}
+	}
+	if acceptFrom < n && (out.status != 1 || out.payload != payloads[acceptFrom]) {
+		r.Fail("c10-first-acceptable", what, fmt.Sprintf("call returned status %d payload %d, want payload %d", out.status, out.payload, payloads[acceptFrom]))
+	}
+	if acceptFrom >= n && out.status == 1 {
+		r.Fail("c10-returned-rejected", what, fmt.Sprintf("call returned payload %d although the matcher rejected everything", out.payload))
 	}
 }
